@@ -297,7 +297,7 @@ spif_bool_t
 spif_mbuff_done(spif_mbuff_t self)
 {
     ASSERT_RVAL(!SPIF_MBUFF_ISNULL(self), FALSE);
-    if (self->size) {
+    if (self->buff != (spif_byteptr_t) NULL) {
         FREE(self->buff);
         self->len = 0;
         self->size = 0;
